@@ -353,6 +353,11 @@ func (e *c11Enum) partARSA() {
 			}
 		}
 	}
+	// the RSA tree head whose signature starts with 0x00 (see c11LeadingZeroTime)
+	if lz := c11LeadingZeroTime(); lz >= 0 && e.mine() {
+		root := c11Roots()[2]
+		c11RunInject(e.rp, "rsa", c11ACase{"A-inject", c11ValidOrigins[0], c11LZSize, hex.EncodeToString(root[:]), lz})
+	}
 }
 
 type c11InjectCase struct {
@@ -406,18 +411,24 @@ func c11RunInject(rp *verifmc.Report, kid string, c c11ACase) {
 	}
 	// The injected signer refuses a signature that does not verify for the
 	// timestamp / tree it is asked to vouch for.
+	rawSig := ths[4:]
 	for _, w := range []struct {
 		what string
 		ts   int64
 		text string
+		ths  []byte
 	}{
-		{"timestamp+1", int64(uint64(c.Time)+1) & math.MaxInt64, text},
-		{"timestamp^1", c.Time ^ 1, text},
-		{"size+1", c.Time, c11FormatText(c.Origin, (c.Size+1)&math.MaxInt64, root)},
-		{"extension", c.Time, text + "extension line\n"},
-		{"origin", c.Time, c11FormatText("other.example/log", c.Size, root)},
+		{"timestamp+1", int64(uint64(c.Time)+1) & math.MaxInt64, text, ths},
+		{"timestamp^1", c.Time ^ 1, text, ths},
+		{"size+1", c.Time, c11FormatText(c.Origin, (c.Size+1)&math.MaxInt64, root), ths},
+		{"extension", c.Time, text + "extension line\n", ths},
+		{"origin", c.Time, c11FormatText("other.example/log", c.Size, root), ths},
+		{"signature without its first byte", c.Time, text, c11DigitallySigned(4, k.SigAlg, rawSig[1:])},
+		{"signature zero-padded", c.Time, text, c11DigitallySigned(4, k.SigAlg, append([]byte{0}, rawSig...))},
+		{"signature followed by a zero", c.Time, text, c11DigitallySigned(4, k.SigAlg, append(append([]byte{}, rawSig...), 0))},
+		{"trailing byte after the digitally-signed struct", c.Time, text, append(append([]byte{}, ths...), 0)},
 	} {
-		ws, err := sunlight.NewRFC6962InjectedSigner(c.Origin, k.Public(), ths, w.ts)
+		ws, err := sunlight.NewRFC6962InjectedSigner(c.Origin, k.Public(), w.ths, w.ts)
 		if err != nil {
 			continue
 		}
